@@ -1,6 +1,6 @@
 use proc_macro2::TokenStream as TokenStream2;
 use quote::quote;
-use syn::{parse_quote, Data, DataEnum, DeriveInput, Error, Fields, FieldsNamed};
+use syn::{ext::IdentExt, parse_quote, Data, DataEnum, DeriveInput, Error, Fields, FieldsNamed};
 
 use crate::utils::*;
 
@@ -159,7 +159,7 @@ fn generate_serialize_variant_arm(
     has_lifetimes: bool,
 ) -> Result<TokenStream2, Error> {
     let variant_name = &variant.ident;
-    let qualified_name = format!("{interface}.{variant_name}");
+    let qualified_name = format!("{interface}.{}", variant_name.unraw());
 
     match &variant.fields {
         // Unit variant - serialize as tagged enum with just error field.
@@ -262,7 +262,7 @@ fn generate_deserialize_with_derive(
     for (i, variant) in modified_enum.variants.iter_mut().enumerate() {
         let field_info = &variant_field_info[i];
         let variant_name = &variant.ident;
-        let qualified_name = format!("{interface}.{variant_name}");
+        let qualified_name = format!("{interface}.{}", variant_name.unraw());
 
         // Add rename attribute for the variant.
         variant
@@ -445,8 +445,6 @@ impl<'a> FieldInfo<'a> {
     /// Extract the serialized name from field attributes or use the field name (without the `r#`
     /// of a raw identifier: `r#type` is the field `type`).
     fn get_serialized_name(field: &syn::Field, default_name: &syn::Ident) -> String {
-        use syn::ext::IdentExt;
-
         parse_zlink_string_attr(&field.attrs, "rename")
             .unwrap_or_else(|| default_name.unraw().to_string())
     }
